@@ -136,6 +136,12 @@ func C05(r *Run) *core.Report {
 	c01T1(r, tmp)
 	n6 := borrow(rep, tmp, "C05.F6", "C01.T1")
 	rep.MinCount("C05.F6", "premise obligations (expiry predicates)", n6, 2)
+	// F7: 'under the key's lock' means under a lock that a resize respects: the post-lock validation sees every running
+	// resize and the copy waits for every bucket's lock (restated from C03/C04 P3, P6) - otherwise an insert made under the
+	// lock is lost and a second caller creates the value again
+	n7 := borrow(rep, mapProtocol(r, "C03", 0), "C05.F7", "C03.P3", "C03.P6")
+	n7 += borrow(rep, mapProtocol(r, "C04", 1), "C05.F7", "C04.P3", "C04.P6")
+	rep.MinCount("C05.F7", "premise obligations (validation and copy respect the lock)", n7, 8)
 	n5 := borrow(rep, C10(r), "C05.F5", "C10.H")
 	rep.MinCount("C05.F5", "premise obligations (hash agrees with ==)", n5, 4)
 	return rep
